@@ -468,6 +468,33 @@ func TestPropSizes(t *testing.T) {
 		}
 		cases = append(cases, Case{Entry: "project", Project: &sut.Project{Root: "{\n  \"n\": @t1\n}", Types: types}})
 	}
+	// types nested close to the limit that inherit from each other at their innermost object: inheritance stacks
+	// the trees (the whole is refused; the point is that the process survives)
+	stacked := [][2]int{{3, 3000}, {2, 6000}}
+	if ev.Thorough() {
+		stacked = append(stacked, [2]int{8, 9990}, [2]int{150, 9990})
+	}
+	for _, cfg := range stacked {
+		var types []sut.Named
+		for i := 1; i <= cfg[0]; i++ {
+			inner := "{\n\"leaf\": 1\n}"
+			if i < cfg[0] {
+				inner = fmt.Sprintf("{ // {allOf: \"@t%d\"}\n\"own%d\": 1\n}", i+1, i)
+			}
+			types = append(types, sut.Named{Name: fmt.Sprintf("@t%d", i), Text: strings.Repeat("{\n\"k\": ", cfg[1]) + inner + strings.Repeat("\n}", cfg[1])})
+		}
+		cases = append(cases, Case{Entry: "project", Project: &sut.Project{Root: "{\n  \"r\": @t1\n}", Types: types}})
+		// ... and the same trees stacked by plain references (the example unfolds them)
+		var refs []sut.Named
+		for i := 1; i <= cfg[0]; i++ {
+			inner := "{\n\"leaf\": 1\n}"
+			if i < cfg[0] {
+				inner = fmt.Sprintf("@t%d", i+1)
+			}
+			refs = append(refs, sut.Named{Name: fmt.Sprintf("@t%d", i), Text: strings.Repeat("{\n\"k\": ", cfg[1]) + inner + strings.Repeat("\n}", cfg[1])})
+		}
+		cases = append(cases, Case{Entry: "project", Project: &sut.Project{Root: "{\n  \"r\": @t1\n}", Types: refs}})
+	}
 	var n, bad int64
 	for i, c := range cases {
 		if !ev.Mine(i) {
@@ -479,7 +506,7 @@ func TestPropSizes(t *testing.T) {
 		ev.NonTrivial("sizes", fmt.Sprint(i))
 		t0 := time.Now()
 		v := oracle(c)
-		if el := time.Since(t0); v == nil && el > 8*time.Second {
+		if el := time.Since(t0); v == nil && el > 8*time.Second && caseSize(c) < 64<<10 {
 			// every input of this table is a few kilobytes and takes the library micro- to milliseconds: eight
 			// seconds are three to six orders of magnitude, on whatever machine
 			v = ev.V("sizes:slow", "all operations on an input of %d bytes took %s", caseSize(c), el.Round(time.Second))
